@@ -12,6 +12,11 @@ CHECKS = {
   note="Kernel-checked for the integer kernels; float rounding is outside any theorem (tie + oracle only). Model tied to /repo by differential correspondence on grids + seeded pairs (coverage in evidence).",
   technique="Lean 4 proof (Int64 -> Int refinement, omega) + model/implementation correspondence + Python oracle",
   ref="C04"),
+ "C05": dict(
+  text="Lean 4 theorems for all Int64 start/end/step/index values and all lists/strings shorter than 2^63: list_slice and str_slice (two copies, proved identical) return exactly CPython's slice (PySlice_AdjustIndices + stepping in unbounded integers), every selected index is in range, step 0 is exactly the documented ValueError; list_get/str_index equal Python indexing with the documented IndexError; range(a,b,c) yields exactly Python's range and its iterator terminates after at most |b-a| items for every i64 triple (no overflow hypothesis, after the saturating-step fix). Slice *syntax* ([a:b:c] in all 8 shapes, incl. `::`) is decided by the oracle on the real parser only.",
+  note="Kernel-checked for the runtime helpers; `len as i64` assumes < 2^63 elements. Tie: exhaustive small grids + extremes in every position + random, against the real stdlib/core functions; oracle: CPython itself. dict_get KeyError text: tie + oracle only.",
+  technique="Lean 4 proof (Int64 loops refine unbounded-integer reference, simulation relation under saturation) + correspondence + CPython oracle",
+  ref="C05"),
  "C19": dict(
   text="Lean 4 theorems over all documents (List Char, no length bound): offset->position->offset round trip on every character boundary, strict monotonicity, agreement with counting newlines/characters, span_to_range well-formed and inside the document for every pair of raw offsets (empty, reversed, past the end, inside a character), terminal line = editor line + 1; terminal column proved to be a byte count (partial: agrees with the character count when the line prefix is ASCII; counter-example kernel-checked and listed as a known finding).",
   note="u32/usize counters modelled as Nat; model tied to the real functions (and format_error rendering) by exhaustive small documents over a 6-character alphabet plus random documents.",
